@@ -526,6 +526,8 @@ def _check_config(cfg):
             km.set_params(strategy=strategy, balanced_predictions=True)
         km.fit(X)
     except Exception as e:
+        if type(e).__name__ == "InvalidParameterError":
+            return []       # scikit-learn's parameter validation refuses the configuration (max_iter // 2 == 0): not a configuration
         return [("constraint_kmeans:%s:%s:fit-raises-%s" % (strategy, start, type(e).__name__),
                  "fit raises %s on a valid data set (n=%d, k=%d)" % (type(e).__name__, n, k),
                  "%s: %s" % (type(e).__name__, str(e)[:120]), "every point assigned to one of the k clusters")]
@@ -584,6 +586,36 @@ def _check_config(cfg):
     return bad
 
 
+def _check_direct_prediction(seed):
+    """one call of constraint_predictions (what balanced predict runs) with its own RandomState on a skewed batch"""
+    import random
+    import numpy
+    from mlinsights.mlmodel import _kmeans_constraint_ as M
+    rng = random.Random(seed)
+    k = rng.choice([3, 4, 4, 5])
+    m = k * rng.randint(1, 3) + rng.randint(1, k - 1)
+    centers = numpy.array([[10.0 * j, 0.0] for j in range(k)])
+    # nearest-centre counts: one or two clusters hold almost everything
+    heavy = rng.sample(range(k), rng.choice([1, 2]))
+    rows = []
+    for i in range(m):
+        j = rng.choice(heavy) if rng.random() < 0.8 else rng.randrange(k)
+        rows.append([10.0 * j + rng.randint(-3, 3), float(rng.randint(-3, 3))])
+    X = numpy.array(rows)
+    strategy = rng.choice(["gain_p", "gain_p", "distance_p"])
+    inp = {"kind": "direct", "n": m, "k": k, "strategy": strategy, "seed": seed}
+    try:
+        labels, _, _ = M.constraint_predictions(X, centers, strategy, state=numpy.random.RandomState(seed % (1 << 31)))
+    except Exception as e:  # noqa: BLE001
+        return [("predict:%s:raises-%s" % (strategy[:-2], type(e).__name__), "balanced prediction raises %s (m=%d, k=%d)"
+                 % (type(e).__name__, m, k), "%s: %s" % (type(e).__name__, str(e)[:120]), "balanced labels", inp)]
+    ok, h = hist_ok(labels, m, k)
+    if not ok:
+        return [("predict:%s:unbalanced:%s" % (strategy[:-2], _cls(m, k)), "sizes of a balanced prediction outside "
+                 "{floor(m/k), ceil(m/k)} (m=%d, k=%d, direct call)" % (m, k), h, "every size in {%d,%d}" % (m // k, -(-m // k)), inp)]
+    return []
+
+
 def _make_cfg(rng, n, k, strategy, kmeans0, d=None, max_iter=None):
     d = d or rng.choice([1, 2, 3])
     X = gen_points(rng, n, d, rng.choice([4, 8, 16, 64]))
@@ -591,7 +623,7 @@ def _make_cfg(rng, n, k, strategy, kmeans0, d=None, max_iter=None):
     m = rng.randint(k, max(k, n + 4)) if rng.random() < 0.7 else rng.randint(1, k)
     Xb = gen_points(rng, m, d, rng.choice([2, 16]))
     return dict(n=n, k=k, strategy=strategy, kmeans0=kmeans0, seed=rng.randrange(1 << 30),
-                max_iter=max_iter or rng.choice([2, 4, 6, 10, 20]), X=X.tolist(), Xb=Xb.tolist())
+                max_iter=max_iter or rng.choice([1, 2, 3, 4, 5, 6, 10, 20]), X=X.tolist(), Xb=Xb.tolist())
 
 
 WITNESS = dict(kind="witness", n=5, k=3, strategy="gain", kmeans0=False, X=[[1], [1], [0], [0], [1]],
@@ -660,6 +692,13 @@ def search(ctx, hints):
         c = _make_cfg(rng, n, k, rng.choice(["distance", "gain"]), rng.random() < 0.5)
         c["prior_strategy"] = rng.choice(["weights", "weights", "gain", "distance"])
         cfgs.append(c)
+    # many direct balanced predictions on SKEWED batches (most rows nearest to one centre, m not divisible by k): the
+    # random draws of the gain strategy miss the eligible clusters only once in a few hundred calls
+    for t in range(ctx.pick(4000, 40000)):
+        bad = _check_direct_prediction(rng.randrange(1 << 30))
+        evals += 1
+        for key, what, obs, req, inp in bad:
+            vs.append(Violation(key, what, inp, obs, req))
     # the Lean witness of gain_counterexample, replayed on the real code
     for key, what, obs, req in _check_witness(WITNESS):
         vs.append(Violation(key, what, dict(WITNESS), obs, req))
@@ -688,4 +727,6 @@ def replay(ctx, item):
     cfg = item["input"]
     if cfg.get("kind") == "witness":
         return [Violation(k, w, cfg, o, r) for k, w, o, r in _check_witness(cfg)]
+    if cfg.get("kind") == "direct":
+        return [Violation(k, w, i, o, r) for k, w, o, r, i in _check_direct_prediction(cfg["seed"])]
     return [Violation(k, w, cfg, o, r) for k, w, o, r in _check_config(cfg)]
